@@ -118,7 +118,9 @@ class C18(Prop):
                 args = [(tokn() if mostly_valid and rng.random() < 0.8 else s()) for _ in range(nargs)]
                 if args and rng.random() < 0.5:
                     args[-1] = args[-1] + ' ' + s()
-                cases.append({'k': 'irc_str', 'cmd': cmd, 'pfx': pfx, 'args': args})
+                c = {'k': 'irc_str', 'cmd': cmd, 'pfx': pfx, 'args': args}
+                self._decorate(rng, c)
+                cases.append(c)
             elif r < 0.85:
                 name = rng.choice(sorted(CTORS))
                 ar = CTORS[name]
@@ -131,12 +133,37 @@ class C18(Prop):
                         args.append(''.join(rng.choice('ab#x') for _ in range(rng.randint(1, 3))))
                     else:
                         args.append(''.join(rng.choice(STR_ALPHA) for _ in range(rng.randint(0, 3))))
-                cases.append({'k': 'irc_ctor', 'name': name, 'args': args})
+                c = {'k': 'irc_ctor', 'name': name, 'args': args}
+                self._decorate(rng, c)
+                c.pop('late', None)
+                if 'enc' in c:
+                    c['enc'] = 'utf-8'      # the constructors build the Message with the default encoding
+                cases.append(c)
             else:
                 line = ''.join(rng.choice(STR_ALPHA + ['PRIVMSG', ' ', ' ', 'nick!u@h']) for _ in range(rng.randint(0, 8)))
                 line = line.replace('\n', '').replace('\r', '') if rng.random() < 0.7 else line
                 cases.append({'k': 'irc_parse', 'line': line})
         return cases
+
+    @staticmethod
+    def _decorate(rng, c):
+        """ways of handing the same argument strings to Message: some as bytes (decoded with the message's encoding),
+        some appended to .args after construction (the line is checked again when it is serialised)"""
+        n = len(c['args'])
+        if n and rng.random() < 0.35:
+            c['bytes'] = [rng.random() < 0.6 for _ in range(n)]
+            c['enc'] = rng.choice(['utf-8', 'utf-8', 'latin-1'])
+            text = ''.join([c.get('cmd', ''), c.get('pfx') or ''] + [a for a in c['args'] if a])
+            if any(ord(ch) > 255 for ch in text):
+                c['enc'] = 'utf-8'           # an encoding that cannot express the message is the caller's mistake
+        if n and rng.random() < 0.2:
+            c['late'] = rng.randint(1, n)      # the last `late` arguments are appended after construction
+
+    @staticmethod
+    def _pyargs(c):
+        enc = c.get('enc', 'utf-8')
+        bs = c.get('bytes') or [False] * len(c['args'])
+        return [(a.encode(enc) if (b and a is not None) else a) for a, b in zip(c['args'], bs)]
 
     # ---- implementation drivers
     def impl(self, c):
@@ -160,27 +187,36 @@ class C18(Prop):
             return [[[a[0], list(a[1])] for a in app.lines], [list(buffers[s]) for s in (1, 2, 3)]]
         if k in ('irc_str', 'irc_ctor'):
             try:
+                enc = c.get('enc', 'utf-8')
+                pyargs = self._pyargs(c)
                 if k == 'irc_str':
                     kw = {} if c['pfx'] is None else {'prefix': c['pfx']}
-                    m = irc_message.Message(c['cmd'], *c['args'], **kw)
+                    if 'enc' in c:
+                        kw['encoding'] = enc
+                    late = c.get('late', 0)
+                    m = irc_message.Message(c['cmd'], *pyargs[:len(pyargs) - late], **kw)
+                    for a in pyargs[len(pyargs) - late:]:
+                        m.args.append(a if isinstance(a, str) else a.decode(enc))
                 else:
-                    m = getattr(irc_commands, c['name'])(*c['args']).args[0]
+                    m = getattr(irc_commands, c['name'])(*pyargs).args[0]
+                    if 'enc' in c:
+                        m.encoding = enc      # what IRC.request() does before it serialises the message
                 s = str(m)
                 b = bytes(m)
             except irc_message.Error:
                 return {'str': None}
-            assert b == s.encode('utf-8')
+            assert b == s.encode(enc)
             old = irc_utils.parseprefix
             irc_utils.parseprefix = lambda p: p
             try:
                 try:
-                    back = irc_utils.parsemsg(b[:-2] if b.endswith(b'\r\n') else b)
+                    back = irc_utils.parsemsg(b[:-2] if b.endswith(b'\r\n') else b, enc)
                     back = [back[0], back[1], list(back[2])]
                 except ValueError:
                     back = None
             finally:
                 irc_utils.parseprefix = old
-            return {'str': s, 'cmd': str(m.command), 'pfx': m.prefix, 'args': list(m.args), 'back': back}
+            return {'str': s, 'cmd': str(m.command), 'pfx': m.prefix, 'args': [a if isinstance(a, str) else bytes(a).decode(enc, 'replace') for a in m.args], 'back': back}
         if k == 'irc_parse':
             old = irc_utils.parseprefix
             irc_utils.parseprefix = lambda p: p
